@@ -97,7 +97,7 @@ Step(e) ==
      ELSE
      LET outOk   == OutClass(e.out) = exp.out
          stOk    == StateEq(exp.st, o)
-         isQ     == e.a.a = "q" /\ exp.out = "ok" /\ outOk
+         isQ     == e.a.a \in {"q", "cq"} /\ exp.out = "ok" /\ outOk
          rowsOk  == ~isQ \/ AcceptRes(e.a.q, EvalQ(e.a.q, DbOf(st), <<>>), e.rows)
          \* repeated execution (harness option --twice): the second answer must be acceptable too (C04)
          rptOk   == ~isQ \/ ("rows2" \notin DOMAIN e) \/ (e.out2 = e.out /\ AcceptRes(e.a.q, EvalQ(e.a.q, DbOf(st), <<>>), e.rows2))
